@@ -34,6 +34,9 @@ REF_ELL = {"SphericalEarth": (6.3781e6, 0.0), "WGS84": (6378137.0, 0.08181919084
 TOL_M = 0.01          # 1 cm
 TOL_DEG = 1e-7
 SIG_HEIGHT = "height-1cm-high-latitude"
+# float32 arguments through the iteration of cart2geodetic: off until the reported hang is fixed or listed
+# (signature cart2geodetic-float32-no-termination); a run with VERIF_C07_F32_ITER=1 guards each call with SIGALRM
+F32_ITERATION = bool(os.environ.get("VERIF_C07_F32_ITER"))
 
 
 
@@ -275,6 +278,15 @@ def gen_cases(rng, n):
         aa = rng.choice([0.0, 180.0]) if hint == "ns" else rng.uniform(-179, 179)
         cases.append({"kind": "hints", "hint": hint, "r": loguniform(rng, 1e6, 1e8), "lat": rng.uniform(-88, 88),
                       "lon": rng.uniform(-179, 179), "za": za, "aa": aa})
+    for _ in range(max(n // 25, 4)):
+        # integer-valued points (also checked against the oracle as ordinary `geodetic` / `dist` cases)
+        d = {"kind": "dtypes", "model": rng.choice(MODELS + ["WGS84"]), "h": rng.choice([0, 1000, -5000, rng.randint(-10000, 1000000)]),
+             "lat": rng.randint(-88, 88), "lon": rng.randint(-179, 180), "r": rng.choice([7000000, 6378137, rng.randint(1000000, 80000000)]),
+             "za": rng.randint(1, 179), "aa": rng.choice([rng.randint(-179, 179), 90, -90, 45]),
+             "lat2": rng.randint(-90, 90), "lon2": rng.randint(-180, 180)}
+        cases.append(d)
+        cases.append({"kind": "geodetic", "model": d["model"], "h": float(d["h"]), "lat": float(d["lat"]), "lon": float(d["lon"])})
+        cases.append({"kind": "poslos", "r": float(d["r"]), "lat": float(d["lat"]), "lon": float(d["lon"]), "za": float(d["za"]), "aa": float(d["aa"])})
     cases.append({"kind": "reject"})
     return cases
 
@@ -723,6 +735,124 @@ class Judge:
         if not (abs(sc(k[0]) - sc(k0[0])) <= 1e-9 * a):
             self.v(c, "geodetic2geocentric with hints changes the radius")
 
+    # ------------------------------------------------------------------ integer-typed and float32 arguments
+    def dtypes(self, c, ans):
+        """integer-valued points handed over as Python int, numpy integer scalars / arrays and float32 arrays: the result
+        must be the one of the same call on float64 values (integers: to rounding, ~1e-12 relative; float32: to float32
+        precision) and finite.  Lengths as int32 arrays are left out for the functions that square them (x**2 wraps
+        around in int32 — numpy semantics, reported); bool angles are left out (np.radians(bool) is float16)."""
+        g, np = self.g, self.np
+        raw = self.raw_ell[c["model"]]                     # exactly what ellipsoidmodels()[m] returns (WGS84: int a)
+        ellf = self.ell[c["model"]]
+        h, lat, lon, r, za, aa = (int(c[k]) for k in ("h", "lat", "lon", "r", "za", "aa"))
+        x, y, z = (int(round(sc(t))) for t in g.geodetic2cart(float(h), float(lat), float(lon), ellf))
+        lat2, lon2 = int(c["lat2"]), int(c["lon2"])
+
+        def flat(v):
+            return [float(t) for a_ in (v if isinstance(v, (tuple, list)) else (v,)) for t in np.ravel(np.asarray(a_, dtype=float))]
+
+        def conv(vals, how, lengths):
+            out = []
+            for i, v in enumerate(vals):
+                if how == "pyint":
+                    out.append(int(v))
+                elif how == "npint":
+                    out.append(np.int64(v))
+                elif how == "int64arr":
+                    out.append(np.array([v, v], dtype=np.int64))
+                elif how == "int2d":
+                    out.append(np.full((2, 2), v, dtype=np.int64))
+                elif how == "int32arr":
+                    out.append(np.array([v, v], dtype=np.int64 if i in lengths else np.int32))
+                elif how == "firstint":                         # only the first argument (radius / height / x) is an integer
+                    out.append(int(v) if i == 0 else float(v))
+                elif how == "f32arr":
+                    out.append(np.array([v, v], dtype=np.float32))
+            return out
+        funcs = [
+            ("geodetic2cart", lambda a_, b_, c_: g.geodetic2cart(a_, b_, c_, raw), (h, lat, lon), {0}),
+            ("cart2geodetic", lambda a_, b_, c_: g.cart2geodetic(a_, b_, c_, raw), (x, y, z), {0, 1, 2}),
+            ("geodetic2geocentric", lambda a_, b_, c_: g.geodetic2geocentric(a_, b_, c_, raw), (h, lat, lon), {0}),
+            ("geocentric2geodetic", lambda a_, b_, c_: g.geocentric2geodetic(a_, b_, c_, raw), (r, lat, lon), {0}),
+            ("geocentric2cart", g.geocentric2cart, (r, lat, lon), {0}),
+            ("cart2geocentric", g.cart2geocentric, (x, y, z), {0, 1, 2}),
+            ("ellipsoid_r_geodetic", lambda a_: g.ellipsoid_r_geodetic(raw, a_), (lat,), set()),
+            ("ellipsoid_r_geocentric", lambda a_: g.ellipsoid_r_geocentric(raw, a_), (lat,), set()),
+            ("great_circle_distance", g.great_circle_distance, (lat, lon, lat2, lon2), set()),
+            ("great_circle_distance(r)", lambda a_, b_, c_, d_, e_: g.great_circle_distance(a_, b_, c_, d_, r=e_), (lat, lon, lat2, lon2, r), {4}),
+            ("tunnel_distance", g.tunnel_distance, (lat, lon, lat2, lon2), set()),
+            ("geocentricposlos2cart", g.geocentricposlos2cart, (r, lat, lon, za, aa), {0}),
+            ("geocentricposlos2cart(r = a of the model)", g.geocentricposlos2cart, (raw[0], lat, lon, za, aa), {0}),
+        ]
+        for name, f, vals, lengths in funcs:
+            fvals = [float(v) for v in vals]
+            ref = flat(f(*fvals))
+            if name.startswith("geocentricposlos2cart"):
+                q = flat(g.cartposlos2geocentric(*ref))           # the direction must survive the way back
+                if not (all(math.isfinite(v) for v in q) and abs(q[3] - za) <= TOL_DEG):
+                    self.v(c, f"cartposlos2geocentric(geocentricposlos2cart{tuple(fvals)}) = {q}")
+            scale = max([1.0] + [abs(v) for v in ref] + [abs(v) for v in fvals])
+            for how in ("pyint", "npint", "int64arr", "int2d", "int32arr", "firstint", "f32arr"):
+                if how != "firstint" and any(isinstance(v, float) and v != int(v) for v in vals):
+                    continue
+                if how == "f32arr" and name in ("cart2geodetic", "geocentric2geodetic") and ellf[1] != 0 and not F32_ITERATION:
+                    continue        # reported: the 1e-12 rad loop may never end in float32 (cart2geodetic-float32-no-termination)
+                args = conv(vals, how, lengths)
+                try:
+                    if how == "f32arr" and name in ("cart2geodetic", "geocentric2geodetic"):
+                        import signal
+
+                        def _to(*_a):
+                            raise TimeoutError("no result after 5 s")
+                        old_h = signal.signal(signal.SIGALRM, _to)
+                        signal.alarm(5)
+                        try:
+                            out = f(*args)
+                        finally:
+                            signal.alarm(0)
+                            signal.signal(signal.SIGALRM, old_h)
+                    else:
+                        out = f(*args)
+                    got = flat(out)
+                except TimeoutError as ex:
+                    self.v(c, f"{name} with float32 arrays at {tuple(vals)} does not terminate: {ex}", "cart2geodetic-float32-no-termination")
+                    continue
+                except Exception as ex:
+                    self.v(c, f"{name}({', '.join(type(a_).__name__ + ':' + str(getattr(a_, 'dtype', '')) for a_ in args)}) at {tuple(vals)} raised {type(ex).__name__}: {ex}")
+                    continue
+                n = len(got) // len(ref) if ref else 1
+                if len(got) != n * len(ref) or n == 0:
+                    self.v(c, f"{name} [{how}] at {tuple(vals)}: {len(got)} result values, float64 call gives {len(ref)}")
+                    continue
+                # float32 arguments: 6e-8 relative on every input, amplified by 1/cos(lat) in the inverse conversions
+                amp = 1.0 / max(math.cos(math.radians(min(abs(float(lat)), 89.0))), 0.03)
+                tol = (4e-6 * amp if how == "f32arr" else 1e-12) * scale
+                angles = {"cart2geodetic": {1, 2}, "geodetic2geocentric": {1, 2}, "geocentric2geodetic": {1, 2},
+                          "cart2geocentric": {1, 2}, "great_circle_distance": {0}}.get(name, set())
+                units = {3, 4, 5} if name.startswith("geocentricposlos2cart") else set()      # components of the unit LOS vector
+                for i, w in enumerate(ref):
+                    vs = got[i * n:(i + 1) * n]
+                    ang = i in angles
+                    t_ = (7e-5 * amp if how == "f32arr" else 1e-10) if ang else (2e-5 if how == "f32arr" else 1e-12) if i in units else tol
+                    if not all(math.isfinite(v) and (abs(v - w) <= t_ or (ang and abs(circ(v, w)) <= t_)) for v in vs):
+                        self.v(c, f"{name} with {how} arguments at {tuple(vals)}: result[{i}] = {vs}, with float64 arguments {w!r}")
+                        break
+                if how in ("pyint", "firstint") and name.startswith("geocentricposlos2cart"):
+                    q = flat(g.cartposlos2geocentric(*out))
+                    if not (all(math.isfinite(v) for v in q) and abs(q[3] - za) <= TOL_DEG):
+                        self.v(c, f"cartposlos2geocentric(geocentricposlos2cart{tuple(args)}) = {q} (zenith angle {za})")
+        # cartposlos2geocentric with an integer position (int64: x**2 fits) and integer direction components
+        d = (1, 2, -2)
+        ref = flat(g.cartposlos2geocentric(float(x), float(y), float(z), 1.0, 2.0, -2.0))
+        for how in ("pyint", "int64arr", "f32arr"):
+            got = flat(g.cartposlos2geocentric(*conv((x, y, z) + d, how, {0, 1, 2})))
+            n = len(got) // len(ref)
+            for i, w in enumerate(ref):
+                t_ = (2e-6 * abs(w) + (5e-2 if i >= 3 else 2e-3)) if how == "f32arr" else 1e-12 * max(abs(w), 1.0) + 1e-9
+                if not all(math.isfinite(v) and (abs(v - w) <= t_ or abs(circ(v, w)) <= t_) for v in got[i * n:(i + 1) * n]):
+                    self.v(c, f"cartposlos2geocentric with {how} arguments at {(x, y, z) + d}: result[{i}] = {got[i * n:(i + 1) * n]}, float64: {w!r}")
+                    break
+
     def reject(self, c, ans):
         g = self.g
         for fn, args in ((g.geocentric2cart, (0.0, 10.0, 20.0)), (g.cart2geocentric, (0.0, 0.0, 0.0)),
@@ -765,6 +895,7 @@ def run_cases(cases, oracle, ck=None):
     E = g.ellipsoidmodels()
     ell = {m: tuple(float(t) for t in E[m]) for m in E.models}
     J = Judge(g, np, ell)
+    J.raw_ell = {m: E[m] for m in E.models}
     tasks, spans = [], []
     for c in cases:
         t = oracle_tasks(c, REF_ELL)
